@@ -25,9 +25,18 @@ def handle (tb : Tables) (c impl : T) : String :=
      | some true => if d47Current then "repaired D47" else "ok"
      | some false => if d47Current then "dev D47" else "mismatch spec-bad (obs true)"
      | none => "bad-op")
+  | .node "c12pos" [], .node "obs" [same] =>
+    -- (D111, hand-set: open, by design of the lazy binding) a Go type that no object type binds by name, @go or
+    -- registration is bound at the first *object-typed* position it reaches (`assureType`): until then a value of it
+    -- at an interface position is not recognised.  The response of `{ node { __typename name } }` depends on whether
+    -- `{ thing { name } }` ran before.
+    (match same.asBool with
+     | some true => "repaired D111"
+     | some false => "dev D111"
+     | none => "bad-op")
   | _, _ => "bad-op"
 
 def flags (tb : Tables) : List (String × Bool) :=
-  [("D26", !(LockTable.unguardedSites tb.locks).isEmpty), ("D47", tb.ifaceNeedsBound)]
+  [("D26", !(LockTable.unguardedSites tb.locks).isEmpty), ("D47", tb.ifaceNeedsBound), ("D111", true)]
 
 end Ggql.Driver.C12
